@@ -230,6 +230,22 @@ func ZzC04() {
 
 	// issued addresses: their private keys are secrets
 	var issued []ManagedAddress
+	// a taproot address first: its address id (the 32-byte output key) is
+	// public material that must not be in the clear either
+	w.addExtKey("taproot address key", w.keyAt(86+h, 0+h, h, 0, 0))
+	sm86, err := w.mgr.FetchScopedKeyManager(KeyScopeBIP0086)
+	zzMust(err)
+	zzMust(w.update(func(ns walletdb.ReadWriteBucket) error {
+		mas, err := sm86.NextExternalAddresses(ns, 0, 1)
+		if err != nil {
+			return err
+		}
+		issued = append(issued, mas...)
+		w.addPublic("taproot address id (output key)", mas[0].Address().ScriptAddress())
+		return nil
+	}))
+	w.scan(true)
+	verifrt.Reach("taproot-address-issued")
 	for i := uint32(0); i < 2; i++ {
 		w.addExtKey("address key", w.keyAt(84+h, 0+h, h, 0, i))
 	}
@@ -361,6 +377,27 @@ func ZzC04() {
 		verifrt.Assert(uerr != nil && w.mgr.IsLocked(), "c04-no-passphrase-unlocks-watching-only")
 		return nil
 	}))
+	// a private key imported into the reopened watching-only wallet: whether
+	// the call is refused or keeps the public part only, no private key may
+	// reach the database (the reopened manager's crypto keys are all-zero
+	// placeholders)
+	priv3, _ := btcec.PrivKeyFromBytes([]byte{0x61, 0x22, 0x33, 0x44, 0x55, 0x66, 0x77, 0x88, 0x99, 0xaa, 0xbb, 0xcc, 0xdd, 0xee, 0xff, 0x01,
+		0x11, 0x22, 0x33, 0x44, 0x55, 0x66, 0x77, 0x88, 0x99, 0xaa, 0xbb, 0xcc, 0xdd, 0xee, 0xff, 0x0b})
+	wif3, err := btcutil.NewWIF(priv3, w.params, true)
+	zzMust(err)
+	w.addSecret("private key imported into the watching-only wallet", priv3.Serialize())
+	w.addSecret("private key imported into the watching-only wallet, WIF", []byte(wif3.String()))
+	sm2, err := w.mgr.FetchScopedKeyManager(KeyScopeBIP0084)
+	zzMust(err)
+	ierr := w.update(func(ns walletdb.ReadWriteBucket) error {
+		_, err := sm2.ImportPrivateKey(ns, wif3, bs)
+		return err
+	})
+	if ierr == nil {
+		verifrt.Reach("watching-only-import-accepted")
+	}
+	w.scan(false)
+	w.scanSealed()
 	verifrt.Reach("c04-end")
 }
 
